@@ -14,7 +14,9 @@
 (***************************************************************************)
 EXTENDS IntLinAlg, Naturals, FiniteSets, TLC, Json
 
-CONSTANTS BP,           \* bound on the entries of the vectors
+CONSTANTS Preset,       \* TRUE: only the fixed polygons through the line at infinity (PresetPolys), default drawing
+          OnlyDefault,  \* TRUE: only the drawing constructed without arguments (chart 0, identity)
+          BP,           \* bound on the entries of the vectors
           MaxVertsP     \* maximal number of vectors of a scene
 
 VARIABLES chart, tm, pverts,
@@ -37,8 +39,16 @@ PChart(w, i) == <<R(w[POthers(i)[1]], w[i + 1]), R(w[POthers(i)[2]], w[i + 1])>>
 \* homogeneous vector of the affine point a of chart i
 PFromChart(a, i) == ClearDen(CASE i = 0 -> <<ROne, a[1], a[2]>> [] i = 1 -> <<a[1], ROne, a[2]>> [] i = 2 -> <<a[1], a[2], ROne>>)
 
-Init == chart \in 0..2 /\ tm \in PTransforms /\ pverts = <<>> /\ rep \in Reps
-AddVec(v) == /\ Len(pverts) < MaxVertsP /\ \A j \in 1..Len(pverts) : pverts[j] # v
+\* polygons through the line at infinity of chart 0 (signs of the chart coordinate ++--+, +-+, --++, +--), with long
+\* and with SHORT crossing edges (chart points 1/6 .. 1/4 apart)
+PresetPolys == {<<PRow(3, 1, 1), PRow(2, 3, 1), PRow(0 - 1, 1, 0 - 2), PRow(0 - 2, 0 - 1, 0 - 2), PRow(3, 2, 3)>>,
+                <<PRow(2, 1, 0), PRow(0 - 3, 0 - 1, 0 - 1), PRow(1, 0 - 1, 1)>>,
+                <<PRow(0 - 1, 1, 0), PRow(0 - 2, 0, 1), PRow(3, 1, 2), PRow(1, 2, 0 - 1)>>,
+                <<PRow(1, 0, 0), PRow(0 - 1, 1, 1), PRow(0 - 3, 1, 0 - 2)>>}
+Init == IF Preset THEN chart = 0 /\ tm = IdMat(3) /\ rep \in {1, 0 - 2} /\ pverts \in PresetPolys
+        ELSE /\ chart \in 0..2 /\ tm \in PTransforms /\ pverts = <<>> /\ rep \in Reps
+             /\ (OnlyDefault => (chart = 0 /\ tm = IdMat(3)))
+AddVec(v) == /\ ~Preset /\ Len(pverts) < MaxVertsP /\ \A j \in 1..Len(pverts) : pverts[j] # v
              /\ PInChart(PImage(tm, v), chart)
              /\ pverts' = Append(pverts, v) /\ UNCHANGED <<chart, tm, rep>>
 Next == \E v \in PVecs : AddVec(v)
@@ -65,7 +75,58 @@ ScaleFree == \A j \in 1..Len(pverts) : \A c \in Reps \cup {2, 0 - 3} :
 OneSign == \/ \A j \in 1..Len(pverts) : Img(j)[chart + 1] > 0
            \/ \A j \in 1..Len(pverts) : Img(j)[chart + 1] < 0
 
-EmitProj == pverts = <<>> \/ PrintT("EMIT " \o ToJson([chart |-> chart, M |-> tm, verts |-> pverts, rep |-> rep, onesign |-> OneSign,
+(***************************************************************************)
+(* A polygon through the line at infinity of the chart, drawn with          *)
+(* assume_affine = False.  With the representatives as given, the edge      *)
+(* between consecutive vectors is the set of their non-negative             *)
+(* combinations; it passes through infinity iff the chart coordinates have  *)
+(* opposite signs ("crossing edge").  With exactly two crossing edges the   *)
+(* vertices fall into two cyclic runs of constant sign; the part of the     *)
+(* polygon in the chart is two unbounded pieces, each bounded by one run,   *)
+(* by the two rays that continue the crossing edges beyond the run's end    *)
+(* vertices AWAY from the vertex on the other side (PRayLaw), and by        *)
+(* infinity.  What the drawing shows (code: draw_nonaff_polygon) is, for    *)
+(* each run, one closed polygon: the run in order, then two "dummy"         *)
+(* vertices, one on each of the two rays, outside the window, the first     *)
+(* after the run's last vertex on ITS ray.                                  *)
+(***************************************************************************)
+PN == Len(pverts)
+PSucc(i) == IF i = PN THEN 1 ELSE i + 1
+PPred(i) == IF i = 1 THEN PN ELSE i - 1
+CSign(i) == Sgn(Img(i)[chart + 1])
+Crossings == {i \in 1..PN : CSign(i) # CSign(PSucc(i))}              \* edge i -> i+1 crosses
+TwoCrossings == PN >= 3 /\ Cardinality(Crossings) = 2
+\* the run that starts after crossing edge i: vertices PSucc(i), ... up to the next crossing
+RECURSIVE RunFrom(_)
+RunFrom(i) == IF i \in Crossings THEN <<i>> ELSE <<i>> \o RunFrom(PSucc(i))
+Runs == [i \in Crossings |-> [verts |-> RunFrom(PSucc(i)), before |-> i, after |-> PSucc(RunFrom(PSucc(i))[Len(RunFrom(PSucc(i)))])]]
+\* a point of the crossing edge e -> f on e's side of infinity lies on the line through the chart points, beyond e away from f
+PRayLaw(e, f) ==
+  LET ce == Img(e)[chart + 1]
+      cf == Img(f)[chart + 1]
+      u == VAdd(VScale(2 * Abs(cf), Img(e)), VScale(Abs(ce), Img(f)))
+      a == PChart(Img(e), chart)
+      b == PChart(Img(f), chart)
+      p == PChart(u, chart)
+  IN /\ Sgn(u[chart + 1]) = Sgn(ce)
+     /\ RIsZero(PCross2(a, b, p))
+     /\ RSgn(RAdd(RMul(RSub(p[1], a[1]), RSub(a[1], b[1])), RMul(RSub(p[2], a[2]), RSub(a[2], b[2])))) > 0
+CrossingLaws ==
+  TwoCrossings =>
+    /\ \A i \in Crossings : PRayLaw(i, PSucc(i)) /\ PRayLaw(PSucc(i), i)
+    \* the two runs partition the vertices, each has constant sign, the signs differ
+    /\ \A i, j \in Crossings : i # j =>
+          /\ {Runs[i].verts[k] : k \in 1..Len(Runs[i].verts)} \cup {Runs[j].verts[k] : k \in 1..Len(Runs[j].verts)} = 1..PN
+          /\ Len(Runs[i].verts) + Len(Runs[j].verts) = PN
+          /\ CSign(Runs[i].verts[1]) # CSign(Runs[j].verts[1])
+    /\ \A i \in Crossings : \A k \in 1..Len(Runs[i].verts) : CSign(Runs[i].verts[k]) = CSign(Runs[i].verts[1])
+CrossInfo == IF TwoCrossings /\ chart = 0 THEN [ok |-> TRUE, runs |-> {Runs[i] : i \in Crossings}] ELSE [ok |-> FALSE]
+
+\* ProjectiveDrawing() without arguments: chart 0, identity transformation
+DefaultChart == 0
+IsDefault == chart = DefaultChart /\ tm = IdMat(3)
+
+EmitProj == pverts = <<>> \/ PrintT("EMIT " \o ToJson([chart |-> chart, M |-> tm, verts |-> pverts, rep |-> rep, onesign |-> OneSign, default |-> IsDefault, cross |-> CrossInfo,
                                                           aff |-> [j \in 1..Len(pverts) |-> PChart(Img(j), chart)]]))
 
 (***************************************************************************)
